@@ -470,11 +470,11 @@ def view(spec):
 
 
 PARTS = {
-    "potentials": {"strategy": spec_pot, "check": check_pot, "examples": {"quick": 1600, "thorough": 30000}, "sample": view},
-    "abmd": {"strategy": spec_abmd, "check": check_abmd, "examples": {"quick": 800, "thorough": 10000}, "sample": view},
-    "schedule": {"strategy": spec_sched, "check": check_sched, "examples": {"quick": 1600, "thorough": 30000}, "sample": view},
+    "potentials": {"strategy": spec_pot, "check": check_pot, "examples": {"quick": 4800, "thorough": 30000}, "sample": view},
+    "abmd": {"strategy": spec_abmd, "check": check_abmd, "examples": {"quick": 2400, "thorough": 10000}, "sample": view},
+    "schedule": {"strategy": spec_sched, "check": check_sched, "examples": {"quick": 4800, "thorough": 30000}, "sample": view},
     "segments": {"strategy": lambda tier: spec_sched(tier, with_cut=True), "check": check_segments,
-                 "examples": {"quick": 800, "thorough": 15000}, "sample": view},
+                 "examples": {"quick": 2400, "thorough": 15000}, "sample": view},
 }
 
 
@@ -538,5 +538,5 @@ def check_pwalls(spec, ctx):
                    strata=["pwalls"] + (["pwalls_across"] if across else []) + ["pwall:" + a for a in active], case_text=case)
 
 
-PARTS["periodic_walls"] = {"strategy": spec_pwalls, "check": check_pwalls, "examples": {"quick": 1200, "thorough": 20000}, "sample": lambda s_: s_}
+PARTS["periodic_walls"] = {"strategy": spec_pwalls, "check": check_pwalls, "examples": {"quick": 3600, "thorough": 20000}, "sample": lambda s_: s_}
 REQUIRED_STRATA = {"all": ["periodic_walls:pwalls_across", "periodic_walls:pwall:upper", "periodic_walls:pwall:lower"]}
